@@ -13,8 +13,13 @@ import json, os, subprocess
 HERE = os.path.dirname(os.path.dirname(os.path.abspath(__file__)))
 F = []
 
+# ids of findings whose *way* of failing is resource exhaustion and varies from run to run (abort / kill /
+# time-out): the witness table pins their case set, not the observation
+VOLATILE = {"C01-huge-brace-range", "C01-nested-array-index-exponential", "C19-exponential-nesting", "C11-nonfinal-compound-stage-inline"}
+
 def finding(id, prop, desc, all=None, none=None, oracle=None, observed_contains=None, witnesses=None, why=None):
     rule = {}
+    if id in VOLATILE: rule["volatile_observation"] = True
     if all: rule["all"] = all
     if none: rule["none"] = none
     if oracle: rule["oracle"] = oracle
